@@ -154,7 +154,8 @@ def generate(seed, tier="quick"):
     start = None
     if driver == "plugin":
         start = sub(seed, "startdir").choice([None, None, None, "from_parent", "from_sibling"])
-    return {"program": prog, "approved": approved, "driver": driver, "fmt": draw_fmt(sub(seed, "fmt")), "kinds": kinds, "start": start}
+    return {"program": prog, "approved": approved, "driver": driver, "fmt": draw_fmt(sub(seed, "fmt")), "kinds": kinds, "start": start,
+            "short_report": driver == "plugin" and sub(seed, "short-report").random() < 0.2}
 
 
 exc_signature = sim.exc_signature
@@ -211,6 +212,10 @@ def execute(case, ctx):
     if driver == "plugin":
         files["pyproject.toml"] = sim.pyproject_for(fmt)
     flags = ",".join((["report"] if driver == "plugin" else []) + sorted(approved)) or None
+    if driver == "plugin" and case.get("short_report"):
+        flags = "short-report"
+        approved = set()
+        ctx.count("probe_short_report_session")
     spec = {"flags": flags, "fmt": fmt}
     if case.get("start"):
         spec[case["start"]] = True  # pytest is started outside the project directory, which is named on the command line
